@@ -29,6 +29,18 @@ TEXT = {
 }
 
 
+def _l1_summary(pid):
+    from . import plans
+    f = plans.PLANS[pid].get("l1")
+    if f is None:
+        return "no separate model-checking instance: the property is about API-level results that the trace specification judges (TLC evaluates the specification's operators on every recorded run)", ""
+    def fmt(insts):
+        return "; ".join("%s: %s" % (i["family"], ", ".join(i.get("invariants", []) + i.get("properties", []))) for i in insts)
+    q = f("quick", 0)
+    t = [i for i in f("thorough", 0) if i not in q]
+    return "L1 instances (quick): " + fmt(q), ("; additionally in the thorough tier (tier-2 bounds): " + fmt(t)) if t else ""
+
+
 def build(registered, not_applicable):
     props = [json.loads(l) for l in open(os.path.join(VERIF, "properties.jsonl"))]
     ids = [p["id"] for p in props]
@@ -51,7 +63,7 @@ def build(registered, not_applicable):
                 "text": "TLC model-checks the explicit TLA+ specification of the pDESy step machine over bounded "
                         "families of project models (%s), and the same clause operators are evaluated by TLC on "
                         "traces recorded from the real code for TLC-enumerated and seeded random models; every "
-                        "recorded phase step must be the specification's step (conformance)." % TEXT[pid],
+                        "recorded phase step must be the specification's step (conformance). %s%s" % ((TEXT[pid],) + _l1_summary(pid)),
                 "design_ref": "DESIGN.md section 6 (%s)" % pid,
             },
             "level_note": "Bounded families (see spec/PdesyFamilies.tla), exact dyadic numbers, deterministic skills; "
